@@ -180,6 +180,8 @@ class HttpBeaconClient:
 
     def __init__(self):
         self.task_map = {}
+        # tasks of a Team Server response that have not been handed out by get_task() yet
+        self.pending_tasks: List[TaskPacket] = []
         self.logger = logger
 
     def run(
@@ -374,6 +376,10 @@ class HttpBeaconClient:
     def get_task(self) -> Optional[TaskPacket]:
         """Get a task from the Team Server."""
 
+        # Tasks that came with an earlier response are handed out first
+        if self.pending_tasks:
+            return self.pending_tasks.pop(0)
+
         # Encrypt and transform metadata into a HTTP request
         req = self.c2http.transform_get.transform(
             C2Data(metadata=encrypt_metadata(self.metadata, public_key=self.c2http.pub)),
@@ -405,8 +411,8 @@ class HttpBeaconClient:
                 if packet.command == BeaconCommand.COMMAND_NOOP:
                     logger.debug("Received NOOP packet: %s", packet)
                     continue
-                return packet
-        return None
+                self.pending_tasks.append(packet)
+        return self.pending_tasks.pop(0) if self.pending_tasks else None
 
     def send_callback(self, callback_id: int, data: bytes):
         """Send callback data to the Team Server."""
